@@ -12,8 +12,8 @@ TEXT = {
     "C04": ("the whole shape of \"one instant, many wall clocks\": offset never read by Eq/Ord/Hash/arith, range filter after re-resolution", "value-level round-trip identities"),
     "C05": ("**narrow**: fold candidates ordered earliest first; contract glue; month tables of the rule-day arithmetic; wall-clock vs UTC coordinates never compared; a transition counts at its own instant (two idioms)", "gap/fold classification on the exact second, hemisphere branches, n-th weekday arithmetic"),
     "C06": ("range, constructor box, unit pairing, invariant at every site, Sum siblings, no wrap", "exactness of results, < 2 ns bound"),
-    "C07": ("accepted combinations, field replacement, accessors, offset shifts keep the fraction, every operator delegates to the core function of its own direction/kind", "leap-second stepping rules, difference of two times (seed C07b missed)"),
-    "C08": ("clamp table of the target year, one-component replacement, checked +1, both operands read", "n-th weekday values, week bounds values"),
+    "C07": ("accepted combinations, field replacement, accessors, offset shifts keep the fraction, every operator delegates to the core function of its own direction/kind, date-times go through the time-of-day core", "leap-second stepping rules, difference of two times (seed C07b missed)"),
+    "C08": ("clamp table of the target year, one-component replacement, checked +1, both operands read, week bounds at the range ends and year crossings (finite maps)", "n-th weekday values; week bounds in the middle of a year only in the thorough tier"),
     "C09": ("**narrow**: writer/reader skeleton agreement, sign arms, tested fraction = printed fraction; 1 known finding", "the round trip for concrete values"),
     "C10": ("**narrow**: reader = ABNF field sequence, no scanned field dropped; writer skeleton, plain year exactly 0..=9999, leap fold at 10^9, truncation", "language equality, values, round trip"),
     "C11": ("**narrow**: zone table vs RFC, year rule, widths, no scanned field dropped, writer structure incl. four-digit year", "optional parts, comments, white space, values"),
@@ -22,8 +22,8 @@ TEXT = {
     "C14": ("no Ok path skips a supplied field; each consistency check reads exactly its own field group; the candidate returned is the one whose offset check held; setter ranges and targets", "success exactly on the documented combinations; error classification (seed C14b missed)"),
     "C15": ("panic-, wrap-, hang-freedom of every fallible entry point (thorough: of every public function outside the documented panickers), modulo the justified sites; byte offsets never from char counts; invariant types closed", "allocation failure, stack depth"),
     "C16": ("survive-everything half; read order; record layouts tile; rule ranges; validation not bypassed and covering every transition", "conforming files decode to exactly what was written (value level)"),
-    "C17": ("**narrow**: failure classification, guards, digit table, safe basis", "which multiple, ties, idempotence (seed C17a missed)"),
-    "C18": ("**narrow**: structure of the reload decision and selection order", "timing, file system, histories, threads"),
+    "C17": ("**narrow**: failure classification on the unmodified span, guards, digit table, safe basis, unchanged exactly for multiples", "which multiple, ties, idempotence (seed C17a missed)"),
+    "C18": ("**narrow**: structure of the reload decision (staleness test before both lookups) and selection order", "timing, file system, histories, threads"),
     "C19": ("the full algebra on the finite domains; FromStr consumes the whole input; from_iter folds everything", "parsing arbitrary strings beyond the tables"),
     "C20": ("helper agreement incl. the primitive requested from the data format, error mapping, delegation, no panic", "round trip through concrete data formats"),
 }
